@@ -152,7 +152,7 @@ def check_seeded_vs_batched(res, db, lcs) -> int:
   every world: the per-world parameter has no effect there. Accepted: the skip is taken only under
   `<field>.shape[0] == 1` for each batched field the recomputation reads."""
   from ..report import Finding
-  from ..terms import T, pc_literals, show, subterms
+  from ..terms import T, lit, lit_parts, pc_literals, show, subterms
   from .world import array_key
 
   seeded = host_seeded_fields(db.sm)
@@ -186,7 +186,8 @@ def check_seeded_vs_batched(res, db, lcs) -> int:
           for l in t.args:
             want.add((l.args[0], l.args[1]))
           return any(want <= o for o in others)
-        return any((t, not pol) in o for o in others)
+        comp = lit_parts(lit(t, not pol))  # normalised complement (`not (x >= 0)` is stored as `x < 0`)
+        return any((t, not pol) in o or comp in o for o in others)
 
       for t, pol in pc_literals(a.pc):
         if covered_elsewhere(t, pol):
